@@ -323,7 +323,7 @@ def rule_jac_absent(F, ev, R, config, rule="R-JAC-ABSENT"):
                 if term[0] == "discr":
                     inner = term[1]
                     if contains(inner, lambda x: x[0] == "field" and x[2] == roles["cache"]):
-                        variants, _, _ = discr_variants(b, sw["block"])
+                        variants, _, _ = discr_variants(sw.get("body", b), sw["block"])
                         names = dict(variants or [])
                         if isinstance(vals, tuple) and all(names.get(v) == "Some" for v in vals if v != "otherwise") and vals:
                             found = True
